@@ -16,6 +16,28 @@ interpreter, int(date), decimal(date), date(number), date + k, date - k,
 date - date, (d + k) - k == d, (d + k) - d == k.
 Binding B: random walks of one date value through those operations are
 recorded from the interpreter and validated by TLC against Date_Trace.tla.
+
+Round 3 - the process around the conversions (spec/DateProc.tla, the zone model
+and the hazard instants of spec/DateOps.tla, the bystander events of
+spec/Date_Trace.tla).  The property speaks about date values only, so nothing
+it names may depend on the time zone of the process, on what the process has
+evaluated before, or on tables at module level that other date functions write:
+* every binding-A job runs under one of the eight zones of DateOps.Zones (the
+  worker switches with tzset), after a call of a date function outside the
+  conversions (parse_date, is_valid_date, format_date, date_year .., failing
+  conversions, sorting) on a leap day or a year end, and makes its calls in a
+  seeded order; the instants TLC exports as skipped / repeated local hours of
+  the zones with daylight saving time are checked under that zone;
+* every history TLC enumerates from DateProc (every operation of the date
+  vocabulary as the first thing a process does, on wide parameter sets; every
+  ordered pair on narrow ones; triples in the thorough tier) and every recorded
+  walk runs in a process of its own: interpreters started with TZ in their
+  environment fork one child per history, so a table built on first use, a
+  value computed at import time and a table another function left changed are
+  all in the state a user's script would meet.  The events are judged by
+  Date_Trace, then the same child runs a battery of binding-A days;
+* every call of the code under test runs under a CPU-time watchdog (a call that
+  does not return is reported as `no-result`, the check never hangs with it).
 """
 import bisect
 import datetime
@@ -23,8 +45,16 @@ import json
 import multiprocessing
 import os
 import random
+import re
+import resource
+import select
+import signal
+import subprocess
+import sys
 import tempfile
+import threading
 import time
+from concurrent.futures import ThreadPoolExecutor
 from fractions import Fraction
 
 from .common import import_ckl, MachineryError
@@ -42,6 +72,90 @@ NPROC = min(16, os.cpu_count() or 1)
 # the code under test loops over the years since 1900 in every conversion (about
 # 1 ms each in year 9999), so the costly forms are run on a share of the random days
 RANDOM_DAY_MODES = ["lean"] * 7 + ["light"] * 2 + ["full"]
+VERIF_ROOT = os.path.dirname(os.path.dirname(os.path.abspath(__file__)))
+NOISE_SHARE = 0.3                   # share of the binding-A jobs that start with a bystander call
+# days every new process is probed on after its history (leap / common / century years, both range ends)
+BATTERY_DAYS = [(2023, 12, 31), (2023, 2, 28), (2024, 2, 29), (1900, 1, 1), (2100, 3, 1)]
+BATTERY_FAR = (9999, 12, 31)        # added for every fourth process (a conversion there takes ~1 ms)
+
+
+# ------------------------------------------------------------------ watchdog
+CPU_LIMIT = 20                      # CPU seconds for one call of the code under test (a conversion takes ~1 ms)
+WALL_LIMITS = (240, 1200)           # wall seconds; a wall time-out is tried once more before it counts
+CHILD_CPU = 150                     # hard CPU limit of one history process (for loops no signal handler can leave)
+
+
+class Hang(BaseException):
+    """raised by the watchdog timers inside the call they interrupt"""
+
+
+def _on_timer(signum, frame):
+    raise Hang("cpu" if signum == signal.SIGVTALRM else "wall")
+
+
+_ARMED = False
+
+
+def _arm():
+    global _ARMED
+    if not _ARMED and threading.current_thread() is threading.main_thread():
+        signal.signal(signal.SIGVTALRM, _on_timer)
+        signal.signal(signal.SIGALRM, _on_timer)
+        _ARMED = True
+    return _ARMED and threading.current_thread() is threading.main_thread()
+
+
+def guarded(fn):
+    """fn() under the watchdog -> ("done", result) | ("hang", text).  The CPU timer (user time of
+    this process: independent of the load of the machine) decides at once; the wall timer is only
+    for calls that wait instead of computing and is tried a second time with a longer limit."""
+    if not _arm():
+        return ("done", fn())
+    for wall in WALL_LIMITS:
+        try:
+            signal.setitimer(signal.ITIMER_VIRTUAL, CPU_LIMIT)
+            signal.setitimer(signal.ITIMER_REAL, wall)
+            try:
+                return ("done", fn())
+            finally:
+                signal.setitimer(signal.ITIMER_VIRTUAL, 0)
+                signal.setitimer(signal.ITIMER_REAL, 0)
+        except Hang as h:
+            if str(h) == "cpu":
+                return ("hang", "no result within %d CPU-seconds" % CPU_LIMIT)
+    return ("hang", "no result within %d s (tried twice)" % WALL_LIMITS[-1])
+
+
+_PROGRESS = None                    # set in a history process: called with the text about to be evaluated
+
+
+def progress(text):
+    if _PROGRESS is not None:
+        _PROGRESS(text)
+
+
+# ------------------------------------------------------------------ environment: the zone of the process
+_ZONES = ["UTC0"]                   # replaced by the zones TLC exports (DateOps.Zones); zone z is _ZONES[z - 1]
+_ENV = {"zone": 0, "tz": None}      # what this process is set to
+
+
+def set_zone(z):
+    tz = _ZONES[z - 1]
+    if _ENV["tz"] != tz:
+        os.environ["TZ"] = tz
+        time.tzset()
+        _ENV["zone"], _ENV["tz"] = z, tz
+
+
+def set_tz(tz):
+    if tz and _ENV["tz"] != tz:
+        os.environ["TZ"] = tz
+        time.tzset()
+        _ENV["zone"], _ENV["tz"] = (_ZONES.index(tz) + 1 if tz in _ZONES else 0), tz
+
+
+def where():
+    return " [TZ=%s]" % _ENV["tz"] if _ENV["tz"] else ""
 
 
 def tlc(*a, **kw):
@@ -64,6 +178,10 @@ class Table:
             self.first[(r["y"], r["m"])] = (r["n"], r["len"])
         self.rows = sorted((n, y, m, ln) for (y, m), (n, ln) in self.first.items())
         self.starts = [r[0] for r in self.rows]
+
+    @classmethod
+    def from_rows(cls, rows):
+        return cls({"y": y, "m": m, "n": n, "len": ln} for (n, y, m, ln) in rows)
 
     def num(self, y, m, d):
         n, ln = self.first[(y, m)]
@@ -107,10 +225,14 @@ def safe(pred, v):
 
 
 def call(fn):
-    try:
-        return ("val", fn())
-    except Exception as e:  # noqa: BLE001 - any exception from a conversion is a finding
-        return ("host", type(e).__name__, str(e)[:100])
+    """-> ("val", v) | ("host", class, text) | ("hang", text)"""
+    def attempt():
+        try:
+            return ("val", fn())
+        except Exception as e:  # noqa: BLE001 - any exception from a conversion is a finding
+            return ("host", type(e).__name__, str(e)[:100])
+    g = guarded(attempt)
+    return g[1] if g[0] == "done" else ("hang", g[1])
 
 
 def py_value(v):
@@ -124,7 +246,11 @@ def py_value(v):
 
 
 def interp(it, src):
-    o = absval.outcome(lambda: it.interpret(src, "c17"))
+    """-> ("val", observation) | ("err", text) | ("syntax", text) | ("host", class, text) | ("hang", text)"""
+    g = guarded(lambda: absval.outcome(lambda: it.interpret(src, "c17")))
+    if g[0] != "done":
+        return ("hang", g[1])
+    o = g[1]
     if o[0] == "val":
         return ("val", py_value(o[1]))
     if o[0] == "err":
@@ -141,7 +267,7 @@ def dec_close(v, n, s):
 
 
 # ------------------------------------------------------------------ binding A: one day
-def check_day(it, y, m, d, n, s, offs, mode="full"):
+def check_day(it, y, m, d, n, s, offs, mode="full", order=None):
     """Conversions for the day (y, m, d) whose predicted day number is n, with
     second-of-day s for the timed forms; offs = [(k, (y2, m2, d2)), ...] are
     offsets with the predicted target date.  mode:
@@ -153,6 +279,9 @@ def check_day(it, y, m, d, n, s, offs, mode="full"):
       "light"  direct, int(date), date(n), `date +- k`, `date - date`
       "full"   every conversion form and every law for each offset
       "arith"  only the laws for each offset
+    order: None = the calls are made in the order listed; a number = in an
+    order drawn from it (number -> date may come first, the interpreter forms
+    may come before the direct calls).
     Returns (violations, count)."""
     out = []
     cnt = 0
@@ -161,81 +290,99 @@ def check_day(it, y, m, d, n, s, offs, mode="full"):
     def direct(fn, arg, want, cmp):
         nonlocal cnt
         cnt += 1
-        case = {"kind": "direct", "ymd": list(ymd), "n": n, "s": s}
+        case = {"kind": "direct", "ymd": list(ymd), "n": n, "s": s, "tz": _ENV["tz"]}
         if fn == "to_oa_date":
-            o = call(lambda: ckldate.to_oa_date(datetime.datetime(*arg)))
             key = "to_oa_date(%s)" % datetime.datetime(*arg).isoformat()
+            progress(key)
+            o = call(lambda: ckldate.to_oa_date(datetime.datetime(*arg)))
         else:
-            o = call(lambda: ckldate.to_date(arg))
             key = "to_date(%r)" % (arg,)
-        if o[0] == "host":
-            out.append((key, "host-exception: %s (%s), expected %r" % (o[1], o[2], want), case))
+            progress(key)
+            o = call(lambda: ckldate.to_date(arg))
+        if o[0] == "hang":
+            out.append((key, "no-result: %s, expected %r%s" % (o[1], want, where()), case))
+        elif o[0] == "host":
+            out.append((key, "host-exception: %s (%s), expected %r%s" % (o[1], o[2], want, where()), case))
         elif not safe(cmp, o[1]):
             shown = o[1].isoformat() if isinstance(o[1], datetime.datetime) else repr(o[1])
-            out.append((key, "%s-mismatch: got %s, expected %r" % (fn, shown, want), case))
+            out.append((key, "%s-mismatch: got %s, expected %r%s" % (fn, shown, want, where()), case))
         return o
 
+    steps = []
     if mode == "midnight":
-        direct("to_oa_date", [y, m, d], n, lambda v: v == n)
-        direct("to_date", n, ymd + (0,), lambda v: fields(v) == ymd + (0,))
-        return out, cnt
-    if mode != "arith":
+        steps.append(lambda: direct("to_oa_date", [y, m, d], n, lambda v: v == n))
+        steps.append(lambda: direct("to_date", n, ymd + (0,), lambda v: fields(v) == ymd + (0,)))
+    elif mode != "arith":
         h, mi, se = hms(s)
         lean = mode in ("lean", "bound")
         # date -> day number
         if not lean:
-            direct("to_oa_date", [y, m, d], n, lambda v: v == n)
-        ot = direct("to_oa_date", [y, m, d, h, mi, se], "%d+%d/86400" % (n, s),
-                    lambda v: abs(Fraction(v) - (n + Fraction(s, 86400))) <= TOL)
-        # day number -> date; the number the code itself produced must come back as the same date
-        if mode != "lean":
-            direct("to_date", n, ymd + (0,), lambda v: fields(v) == ymd + (0,))
-        back = ot[1] if ot[0] == "val" and isinstance(ot[1], (int, float)) else n + s / 86400
-        direct("to_date", back, ymd + (s,), lambda v: fields(v) == ymd + (s,))
-        if mode == "full" and back != n + s / 86400:
-            direct("to_date", n + s / 86400, ymd + (s,), lambda v: fields(v) == ymd + (s,))
-    if mode in ("direct", "lean"):
-        return out, cnt
+            steps.append(lambda: direct("to_oa_date", [y, m, d], n, lambda v: v == n))
 
-    # through the interpreter (one program; on any failure the parts are run one by one)
-    if mode == "bound":
-        s = 0                       # the step across the year end is taken at midnight: date('20201231') + 1
-    D0, DT = lit(ymd), lit(ymd, s)
-    decs = repr(n + s / 86400)
+        def timed():
+            ot = direct("to_oa_date", [y, m, d, h, mi, se], "%d+%d/86400" % (n, s),
+                        lambda v: abs(Fraction(v) - (n + Fraction(s, 86400))) <= TOL)
+            # day number -> date; the number the code itself produced must come back as the same date
+            back = ot[1] if ot[0] == "val" and isinstance(ot[1], (int, float)) else n + s / 86400
+            direct("to_date", back, ymd + (s,), lambda v: fields(v) == ymd + (s,))
+            if mode == "full" and back != n + s / 86400:
+                direct("to_date", n + s / 86400, ymd + (s,), lambda v: fields(v) == ymd + (s,))
+        steps.append(timed)
+        if mode != "lean":
+            steps.append(lambda: direct("to_date", n, ymd + (0,), lambda v: fields(v) == ymd + (0,)))
+
     parts = []
-    if mode == "light":
-        parts += [
-            ("int(%s)" % D0, "int", n),
-            ("date(%d)" % n, "eq", ["date", y, m, d, 0]),
-        ]
-    elif mode == "full":
-        parts += [
-            ("int(%s)" % DT, "int", n),
-            ("decimal(%s)" % DT, "dec", [n, s]),
-            ("date(%d)" % n, "eq", ["date", y, m, d, 0]),
-            ("date(%s)" % decs, "eq", ["date", y, m, d, s]),
-            ("date(int(%s)) == %s" % (D0, D0), "true", True),
-            ("date(decimal(%s)) == %s" % (DT, DT), "true", True),
-        ]
-    for k, tgt in offs:
-        want = ["date"] + list(tgt) + [s]
-        T = lit(tuple(tgt), s)
-        if k >= 0:
-            parts.append(("%s + %d" % (DT, k), "eq", want))
-        else:
-            parts.append(("%s - %d" % (DT, -k), "eq", want))
-        if mode == "bound":
-            continue
-        parts.append(("%s - %s" % (T, DT), "int", k))
-        if mode != "light":
+    if mode not in ("midnight", "direct", "lean"):
+        # through the interpreter (one program; on any failure the parts are run one by one)
+        sp = 0 if mode == "bound" else s    # the step across the year end is taken at midnight: date('20201231') + 1
+        D0, DT = lit(ymd), lit(ymd, sp)
+        decs = repr(n + sp / 86400)
+        if mode == "light":
+            parts += [
+                ("int(%s)" % D0, "int", n),
+                ("date(%d)" % n, "eq", ["date", y, m, d, 0]),
+            ]
+        elif mode == "full":
+            parts += [
+                ("int(%s)" % DT, "int", n),
+                ("decimal(%s)" % DT, "dec", [n, sp]),
+                ("date(%d)" % n, "eq", ["date", y, m, d, 0]),
+                ("date(%s)" % decs, "eq", ["date", y, m, d, sp]),
+                ("date(int(%s)) == %s" % (D0, D0), "true", True),
+                ("date(decimal(%s)) == %s" % (DT, DT), "true", True),
+            ]
+        for k, tgt in offs:
+            want = ["date"] + list(tgt) + [sp]
+            T = lit(tuple(tgt), sp)
             if k >= 0:
-                parts.append(("(%s + %d) - %d == %s" % (DT, k, k, DT), "true", True))
+                parts.append(("%s + %d" % (DT, k), "eq", want))
             else:
-                parts.append(("(%s - %d) + %d == %s" % (DT, -k, -k, DT), "true", True))
-            parts.append(("(%s + (%d)) - %s" % (DT, k, DT), "int", k))
-            parts.append(("(%s + (%d)) - %s == %d" % (DT, k, DT, k), "true", True))
-    out2, c2 = check_parts(it, parts)
-    return out + out2, cnt + c2
+                parts.append(("%s - %d" % (DT, -k), "eq", want))
+            if mode == "bound":
+                continue
+            parts.append(("%s - %s" % (T, DT), "int", k))
+            if mode != "light":
+                if k >= 0:
+                    parts.append(("(%s + %d) - %d == %s" % (DT, k, k, DT), "true", True))
+                else:
+                    parts.append(("(%s - %d) + %d == %s" % (DT, -k, -k, DT), "true", True))
+                parts.append(("(%s + (%d)) - %s" % (DT, k, DT), "int", k))
+                parts.append(("(%s + (%d)) - %s == %d" % (DT, k, DT, k), "true", True))
+
+    def program():
+        nonlocal cnt
+        out2, c2 = check_parts(it, parts)
+        out.extend(out2)
+        cnt += c2
+    if parts:
+        steps.append(program)
+    if order is not None:
+        rnd = random.Random(order)
+        rnd.shuffle(steps)
+        rnd.shuffle(parts)
+    for step in steps:
+        step()
+    return out, cnt
 
 
 def matches(cmp, want, v):
@@ -245,7 +392,7 @@ def matches(cmp, want, v):
         return dec_close(v, want[0], want[1])
     if cmp == "true":
         return v is True
-    return v == tuple(want)
+    return absval.strict_eq(v, tuple(want))
 
 
 def check_parts(it, parts):
@@ -255,19 +402,25 @@ def check_parts(it, parts):
     if not parts:
         return out, 0
     prog = "[" + ", ".join(p[0] for p in parts) + "]"
+    progress(prog)
     o = interp(it, prog)
     if o[0] == "val" and o[1][0] == "list" and len(o[1][1]) == len(parts):
         obs = [("val", v) for v in o[1][1]]
     else:
-        obs = [interp(it, p[0]) for p in parts]
+        obs = []
+        for p_ in parts:
+            progress(p_[0])
+            obs.append(interp(it, p_[0]))
     for (src, cmp, want), ob in zip(parts, obs):
-        case = {"kind": "expr", "src": src, "cmp": cmp, "want": want}
-        if ob[0] == "host":
-            out.append((src, "host-exception: %s (%s), expected %r" % (ob[1], ob[2], want), case))
+        case = {"kind": "expr", "src": src, "cmp": cmp, "want": want, "tz": _ENV["tz"], "pre": _ENV.get("pre")}
+        if ob[0] == "hang":
+            out.append((src, "no-result: %s, expected %r%s" % (ob[1], want, where()), case))
+        elif ob[0] == "host":
+            out.append((src, "host-exception: %s (%s), expected %r%s" % (ob[1], ob[2], want, where()), case))
         elif ob[0] != "val":
-            out.append((src, "error: %s %s, expected %r" % (ob[0], ob[1], want), case))
+            out.append((src, "error: %s %s, expected %r%s" % (ob[0], ob[1], want, where()), case))
         elif not matches(cmp, want, ob[1]):
-            out.append((src, "%s: got %r, expected %r" % (category(src), ob[1], want), case))
+            out.append((src, "%s: got %r, expected %r%s" % (category(src), ob[1], want, where()), case))
     return out, len(parts)
 
 
@@ -289,73 +442,107 @@ _IT = None
 _TAB = None          # the TLC month table, inherited by the forked pool workers
 
 
-def _worker(chunk):
-    """One chunk of jobs -> (violations, evaluations, trace events, trace meta,
-    cpu seconds by job kind)."""
+def _worker(arg):
+    """One chunk of jobs -> (chunk index, violations, evaluations, drift, cpu seconds by job kind)."""
     global _IT
+    idx, chunk = arg
     if _IT is None:
         _IT = Interpreter(True, False)
     out = []
+    drift = []
     cnt = 0
-    events, meta = [], []
     cpu = {}
     for job in chunk:
         t0 = time.process_time()
         kind = job[0] if isinstance(job[0], str) else job[-1]
-        cnt += _run_job(job, out, events, meta)
+        try:
+            cnt += _run_job(job, out, drift)
+        except Hang as h:               # a timer that fired between two guarded calls: nothing was running
+            drift.append(("watchdog-outside-call", str(h)))
         cpu[kind] = cpu.get(kind, 0.0) + time.process_time() - t0
-    return out, cnt, events, meta, cpu
+    return idx, out, cnt, drift, cpu
 
 
-def _run_job(job, out, events, meta):
+def _run_job(job, out, drift):
     cnt = 0
+    zone, nseed = job[-2]
+    set_zone(zone)
+    _ENV["pre"] = None
+    if nseed:
+        # a date function outside the conversions runs first: it must not matter
+        src = noise_program(random.Random(nseed), _TAB)
+        _ENV["pre"] = src
+        o = interp(_IT, src)
+        if o[0] in ("host", "hang"):
+            drift.append(("bystander-" + o[0], "%s -> %r" % (src, o[1:])))
     if job[0] == "month":
         # every day of one month, direct conversions only, seeded times of day
-        _tag, y, m, n0, ln, seed = job
+        _tag, y, m, n0, ln, seed = job[:6]
         r = random.Random(seed)
         for d in range(1, ln + 1):
             # both conversions at midnight and with a time on the first and last two days of the
             # month, on the other days alternately with a time of day / at midnight
             edge = d <= 2 or d >= ln - 1
             mode = "direct" if edge else ("lean" if (n0 + d) % 2 else "midnight")
-            o, c = check_day(None, y, m, d, n0 + d - 1, r.randrange(86400), [], mode)
+            o, c = check_day(None, y, m, d, n0 + d - 1, r.randrange(86400), [], mode,
+                             order=(seed + d if d % 3 == 0 else None))
             out += o
             cnt += c
-    elif job[0] == "traces":
-        _tag, seed, count = job
-        e, mt = record_traces(random.Random(seed), count, _TAB)
-        events += e
-        meta += mt
     else:
-        (y, m, d, n, s, offs, mode) = job
-        o, c = check_day(_IT, y, m, d, n, s, offs, mode)
+        (y, m, d, n, s, offs, _env, mode) = job
+        o, c = check_day(_IT, y, m, d, n, s, offs, mode, order=(nseed or None))
         out += o
         cnt += c
     return cnt
 
 
-def run_jobs(run, jobs, chunk):
-    """-> (evaluations, trace events, trace meta); violations go to run"""
-    chunks = [jobs[i:i + chunk] for i in range(0, len(jobs), chunk)]
+def run_jobs(run, jobs, chunk, limit):
+    """-> evaluations; violations and drift go to run.  limit: seconds to wait for one chunk."""
+    chunks = list(enumerate(jobs[i:i + chunk] for i in range(0, len(jobs), chunk)))
+    results = []
     if NPROC > 1 and len(chunks) > 1:
         ctx = multiprocessing.get_context("fork")
-        with ctx.Pool(NPROC) as pool:
-            results = pool.map(_worker, chunks, chunksize=1)
+        pool = ctx.Pool(NPROC)
+        try:
+            pending = pool.imap_unordered(_worker, chunks, chunksize=1)
+            for _ in chunks:
+                try:
+                    results.append(pending.next(timeout=limit))
+                except multiprocessing.TimeoutError:
+                    report(run, results)
+                    raise MachineryError("the worker pool returned no result for %d s (%d of %d chunks done)"
+                                         % (limit, len(results), len(chunks)))
+            pool.close()
+        finally:
+            pool.terminate()
+            pool.join()
     else:
-        results = [_worker(c) for c in chunks]
+        tz0 = os.environ.get("TZ")
+        try:
+            results = [_worker(c) for c in chunks]
+        finally:
+            if tz0 is None:
+                os.environ.pop("TZ", None)
+            else:
+                os.environ["TZ"] = tz0
+            time.tzset()
+            _ENV["zone"], _ENV["tz"] = 0, None
+    return report(run, results)
+
+
+def report(run, results):
     total = 0
-    events, meta = [], []
     cpu = {}
-    for out, cnt, ev, mt, c in results:
+    for _idx, out, cnt, drift, c in sorted(results, key=lambda r: r[0]):
         total += cnt
-        events += ev
-        meta += mt
         for k, v in c.items():
             cpu[k] = cpu.get(k, 0.0) + v
         for key, what, case in out:
             run.violation(key, what, case)
+        for kind, sample in drift:
+            run.drift(kind, sample)
     run.cov["impl_cpu_seconds_by_job_kind"] = {k: round(v, 1) for k, v in sorted(cpu.items())}
-    return total, events, meta
+    return total
 
 
 def offsets_for(tab, rng, n, how_many, ends=True):
@@ -368,151 +555,580 @@ def offsets_for(tab, rng, n, how_many, ends=True):
     return [(k, tab.date(n + k)) for k in ks]
 
 
-# ------------------------------------------------------------------ binding B
-BLANK = {"op": "", "ok": True, "y": 0, "m": 0, "d": 0, "s": 0, "k": 0, "a": 0, "r": 0, "us": 0, "b": False}
+# ------------------------------------------------------------------ events (binding B, format of Date_Trace.tla)
+BLANK = {"op": "", "ok": True, "y": 0, "m": 0, "d": 0, "s": 0, "k": 0, "a": 0, "t": 0, "r": 0, "us": 0, "b": False}
+INPUTS = {"start": ("k", "a"), "tz": ("k",), "new": ("y", "m", "d", "s"), "add": ("k",), "sub": ("k",),
+          "diff": ("k",), "back": ("k",), "date_int": ("k",), "date_dec": ("k", "a"), "api_date": ("k", "a"),
+          "api_num": ("y", "m", "d", "s"), "minus": ("y", "m", "d", "s"), "cmp": ("y", "m", "d", "s", "a"),
+          "parse": ("k", "a", "t"), "valid": ("k",), "fmt": ("a",), "part": ("a",), "err": ("a",), "free": ("a",)}
+CONSTRUCTORS = ("new", "date_int", "date_dec", "parse")
+PARSE_FMT = {1: "'yyyyMMdd'", 2: "'yyyyMMddHHmmss'", 3: "['yyyyMM', 'yyyyMMddHHmmss']", 4: "'ddMMyyyyHHmmss'"}
+FMT_SRC = {1: "require Date; Date->format_date(cur, fmt = 'yyyyMMddHHmmss')", 2: "require Date; Date->format_date(cur)",
+           3: "require Date; Date->iso_datetime(cur)", 4: "require Date; Date->iso_date(cur)"}
+PART_SRC = {1: "date_year", 2: "date_month", 3: "date_day", 4: "date_hour", 5: "date_minute", 6: "date_second"}
+CMP_SRC = {1: "<", 2: "<=", 3: "==", 4: "!=", 5: ">=", 6: ">"}
+ERR_SRC = {1: "date(1)", 2: "date(2958466)", 3: "date('20230229')", 4: "date('99991231') + 1",
+           5: "date('19000101') - 1", 6: "date(3000000.5)"}
+FREE_SRC = {1: "date()", 2: "timestamp()", 3: "sorted([date('20240229'), date('20231231'), date('20240301')])",
+            4: "date('20240229') + 0.5", 5: "is_valid_time('2359')", 6: "require Date; Date->parse_date('20230229')",
+            7: "require Date; Date->parse_date('12', fmt = 'HH')", 8: "string(date('2024022912'))"}
+
+
+def source(e):
+    """the program text (or the direct call) of one event"""
+    op = e["op"]
+    ymd = (e["y"], e["m"], e["d"])
+    if op == "start":
+        return "(a new process starts, TZ=%s)" % _ZONES[e["k"] - 1]
+    if op == "tz":
+        return "(the zone of the process changes, TZ=%s)" % _ZONES[e["k"] - 1]
+    if op == "new":
+        return "def cur = " + lit(ymd, e["s"])
+    if op == "date_int":
+        return "def cur = date(%d)" % e["k"]
+    if op == "date_dec":
+        return "def cur = date(%s)" % repr(e["k"] + e["a"] / 86400)
+    if op == "api_date":
+        return "ckl.date.to_date(%r)" % (e["k"] + e["a"] / 86400 if e["a"] else e["k"],)
+    if op == "api_num":
+        return "ckl.date.to_oa_date(%r)" % (datetime.datetime(*(ymd + hms(e["s"]))),)
+    if op == "parse":
+        y, m, d = e["k"] // 10000, e["k"] // 100 % 100, e["k"] % 100
+        if e["a"] == 1:
+            text = "%04d%02d%02d" % (y, m, d)
+        elif e["a"] == 4:
+            text = "%02d%02d%04d%02d%02d%02d" % ((d, m, y) + hms(e["t"]))
+        else:
+            text = "%04d%02d%02d%02d%02d%02d" % ((y, m, d) + hms(e["t"]))
+        return "require Date; def cur = Date->parse_date('%s', fmt = %s)" % (text, PARSE_FMT[e["a"]])
+    if op == "valid":
+        return "is_valid_date('%08d')" % e["k"]
+    if op == "fmt":
+        return FMT_SRC[e["a"]]
+    if op == "part":
+        return "require Date; Date->%s(cur)" % PART_SRC[e["a"]]
+    if op == "str":
+        return "string(cur)"
+    if op == "cmp":
+        return "cur %s %s" % (CMP_SRC[e["a"]], lit(ymd, e["s"]))
+    if op == "err":
+        return ERR_SRC[e["a"]]
+    if op == "free":
+        return FREE_SRC[e["a"]]
+    if op == "minus":
+        return "%s - cur" % lit(ymd, e["s"])
+    return {"add": "cur = cur + %d" % e["k"], "sub": "cur = cur - %d" % e["k"], "int": "int(cur)",
+            "dec": "decimal(cur)", "roundtrip": "date(decimal(cur))", "roundtrip_int": "date(int(cur))",
+            "diff": "(cur + %d) - cur" % e["k"], "back": "(cur + %d) - %d == cur" % (e["k"], e["k"])}[op]
+
+
+def event(op, **kw):
+    e = dict(BLANK)
+    e["op"] = op
+    e.update(kw)
+    return e
+
+
+def split_number(e, x, sec_field):
+    """a day number with a time of day -> whole days in r, second in sec_field, residual microseconds in us"""
+    x = Fraction(x)
+    r = x.numerator // x.denominator
+    secs = round((x - r) * 86400)
+    us = round(((x - r) * 86400 - secs) * 10 ** 6)
+    if secs == 86400:
+        r, secs = r + 1, 0
+    e["r"], e[sec_field], e["us"] = r, secs, us
+
+
+def digits_to_fields(text, with_time):
+    ds = "".join(re.findall(r"[0-9]", text))
+    if len(ds) != (14 if with_time else 8):
+        return None
+    y, m, d = int(ds[0:4]), int(ds[4:6]), int(ds[6:8])
+    if not with_time:
+        return (y, m, d, 0)
+    return (y, m, d, int(ds[8:10]) * 3600 + int(ds[10:12]) * 60 + int(ds[12:14]))
 
 
 def observe(it, e, src):
-    """Run src on the interpreter and store what it returned in the event e
-    (which already holds op and the inputs).  -> the raw outcome"""
-    o = interp(it, src)
+    """Evaluate the event e (which already holds op and the inputs) on the code
+    under test and store what came back in its observed fields.  -> the raw outcome"""
     op = e["op"]
+    progress(src)
+    if op == "start":
+        e["ok"] = True
+        return ("val", None)
+    if op == "tz":
+        set_zone(e["k"])
+        e["ok"] = True
+        return ("val", None)
+    if op == "api_date":
+        o = call(lambda: ckldate.to_date(e["k"] + e["a"] / 86400 if e["a"] else e["k"]))
+        ok = o[0] == "val" and isinstance(o[1], datetime.datetime)
+        if ok:
+            e["y"], e["m"], e["d"], e["s"] = fields(o[1])
+            o = ("val", o[1].isoformat())
+        e["ok"] = ok
+        return o
+    if op == "api_num":
+        arg = datetime.datetime(*((e["y"], e["m"], e["d"]) + hms(e["s"])))
+        o = call(lambda: ckldate.to_oa_date(arg))
+        ok = o[0] == "val" and type(o[1]) in (int, float) and 0 <= o[1] < 2 ** 31
+        if ok:
+            split_number(e, o[1], "t")
+        e["ok"] = ok
+        return o
+    o = interp(it, src)
     ok = o[0] == "val"
     v = o[1] if ok else None
     if op == "new":
-        pass
-    elif op in ("add", "sub", "date_int", "date_dec", "roundtrip", "roundtrip_int"):
+        ok = ok and isinstance(v, tuple) and v[0] == "date"
+    elif op in ("add", "sub", "date_int", "date_dec", "roundtrip", "roundtrip_int", "parse"):
         if ok and isinstance(v, tuple) and v[0] == "date":
             e["y"], e["m"], e["d"], e["s"] = v[1:5]
         else:
             ok = False
-    elif op in ("int", "diff", "minus"):
+    elif op in ("int", "diff", "minus", "part"):
         if ok and type(v) is int and abs(v) < 2 ** 31:
             e["r"] = v
         else:
             ok = False
     elif op == "dec":
         if ok and isinstance(v, tuple) and v[0] == "dec" and 0 <= v[1] < 2 ** 31:
-            x = Fraction(v[1])
-            r = x.numerator // x.denominator
-            secs = round((x - r) * 86400)
-            us = round(((x - r) * 86400 - secs) * 10 ** 6)
-            if secs == 86400:
-                r, secs = r + 1, 0
-            e["r"], e["s"], e["us"] = r, secs, us
+            split_number(e, v[1], "s")
         else:
             ok = False
-    elif op == "back":
+    elif op in ("back", "valid", "cmp"):
         if ok and isinstance(v, bool):
             e["b"] = v
         else:
             ok = False
+    elif op in ("fmt", "str"):
+        f = digits_to_fields(v[1], not (op == "fmt" and e["a"] == 4)) \
+            if ok and isinstance(v, tuple) and v[0] == "str" else None
+        if f:
+            e["y"], e["m"], e["d"], e["s"] = f
+        else:
+            ok = False
+    elif op == "err":
+        e["r"] = {"val": 0, "err": 1}.get(o[0], 2)
+        ok = o[0] != "hang"
+    elif op == "free":
+        ok = o[0] not in ("host", "hang")
     e["ok"] = ok
     return o
 
 
-def record_traces(rng, ntraces, tab):
-    """-> (events, meta); meta[i] = [source text, note] of event i"""
+def note_of(e, o):
+    return "" if e["ok"] else "%r" % (o,)
+
+
+# ------------------------------------------------------------------ bystanders
+def noise_day(rng, tab):
+    """a day for a bystander call: 29 February and 31 December of leap years above all"""
+    mode = rng.random()
+    y = rng.randint(1900, 9999)
+    if mode < 0.4:
+        y = y - y % 4
+        y = y if (y % 100 or y % 400 == 0) else y + 4
+        return (y, 2, 29) if mode < 0.25 else (y, 12, 31)
+    if mode < 0.6:
+        return rng.choice([(y, 2, 28), (y, 3, 1), (y, 12, 31), (y, 1, 1)])
+    return tab.date(rng.randint(FIRST, LAST))
+
+
+def noise_event(rng, tab, cur=None):
+    """one event of a date function outside the conversions (inputs only); cur = (cn, cs) when a
+    date variable `cur` exists (the readers need it)"""
+    ops = ["parse", "valid", "valid", "err", "free"]
+    if cur is not None:
+        ops += ["fmt", "part", "str", "cmp", "fmt", "part"]
+    op = rng.choice(ops)
+    if op == "parse":
+        y, m, d = noise_day(rng, tab)
+        return event(op, k=y * 10000 + m * 100 + d, a=rng.randint(1, 4), t=rng.randrange(86400))
+    if op == "valid":
+        y, m, d = noise_day(rng, tab)
+        if rng.random() < 0.4:
+            m, d = rng.choice([(2, 29), (2, 30), (4, 31), (13, 1), (1, 0), (12, 32), (6, 31), (2, 29)])
+        return event(op, k=y * 10000 + m * 100 + d)
+    if op == "fmt":
+        return event(op, a=rng.randint(1, 4))
+    if op == "part":
+        return event(op, a=rng.randint(1, 6))
+    if op == "cmp":
+        cn, cs = cur
+        j = rng.choice([-1, 0, 0, 1])
+        n2 = min(LAST, max(FIRST, cn + j))
+        y, m, d = tab.date(n2)
+        return event(op, y=y, m=m, d=d, s=rng.choice([cs, cs, rng.randrange(86400)]), a=rng.randint(1, 6))
+    if op == "err":
+        return event(op, a=rng.randint(1, 6))
+    if op == "free":
+        return event(op, a=rng.randint(1, 8))
+    return event(op)
+
+
+def noise_program(rng, tab):
+    """program text of one or two bystander calls for a binding-A job (its results are not judged there;
+    the same calls are judged by Date_Trace in the recorded walks)"""
+    y, m, d = noise_day(rng, tab)
+    s = rng.randrange(86400)
+    srcs = ["def cur = " + lit((y, m, d), s)]
+    for _ in range(rng.randint(1, 2)):
+        e = noise_event(rng, tab, (tab.num(y, m, d), s))
+        if e["op"] == "err":
+            continue                    # a failing call ends the program: kept for the walks and histories
+        srcs.append(source(e))
+        if e["op"] == "parse":
+            break                       # cur may be NULL now
+    return "; ".join(srcs)
+
+
+# ------------------------------------------------------------------ binding B: one process
+def record_walk(rng, tab, it, zone):
+    """One recorded walk in this (new) process -> (events, meta); meta[i] = [source text, note]"""
     events, meta = [], []
 
-    def ev(it, src, **kw):
-        e = dict(BLANK)
-        e.update(kw)
+    def ev(e):
+        src = source(e)
         o = observe(it, e, src)
         events.append(e)
-        meta.append([src, "" if e["ok"] else "%r" % (o,)])
+        meta.append([src, note_of(e, o)])
         return e
 
-    for _ in range(ntraces):
-        it = Interpreter(True, False)
-        # start: bias towards year ends, February ends and the range ends
-        mode = rng.random()
-        if mode < 0.35:
-            yy = rng.randint(1900, 9999)
-            n = tab.num(yy, 1, 1) + rng.choice([-2, -1, 0, 1, 58, 59, 60])
-        elif mode < 0.45:
-            n = rng.choice([FIRST, FIRST + 1, LAST - 1, LAST, 25568, 25569, 25570])
+    ev(event("start", k=zone, a=1))
+    # start: bias towards year ends, February ends and the range ends
+    mode = rng.random()
+    if mode < 0.35:
+        yy = rng.randint(1900, 9999)
+        n = tab.num(yy, 1, 1) + rng.choice([-2, -1, 0, 1, 58, 59, 60])
+    elif mode < 0.45:
+        n = rng.choice([FIRST, FIRST + 1, LAST - 1, LAST, 25568, 25569, 25570])
+    else:
+        n = rng.randint(FIRST, LAST)
+    n = max(FIRST, min(LAST, n))
+    s = rng.choice([0, 0, 43200, 86399, 1]) if rng.random() < 0.4 else rng.randrange(86400)
+    y, m, d = tab.date(n)
+    first = rng.random()
+    if first < 0.15:
+        # the first thing the process does is number -> date
+        e = ev(event("date_dec", k=n, a=s) if s else event("date_int", k=n))
+    elif first < 0.25:
+        ev(event("api_date", k=n, a=s))
+        e = ev(event("new", y=y, m=m, d=d, s=s))
+    elif first < 0.4:
+        ev(noise_event(rng, tab))
+        e = ev(event("new", y=y, m=m, d=d, s=s))
+    else:
+        e = ev(event("new", y=y, m=m, d=d, s=s))
+    if not e["ok"]:
+        return events, meta
+    for _step in range(rng.randint(5, 12)):
+        op = rng.choice(["add", "sub", "add", "sub", "int", "dec", "date_int", "date_dec",
+                         "roundtrip", "roundtrip_int", "diff", "minus", "back",
+                         "noise", "noise", "noise", "noise", "tz", "api_date", "api_num"])
+        cur = interp(it, "cur")
+        if cur[0] != "val" or not isinstance(cur[1], tuple) or cur[1][0] != "date":
+            break
+        cy, cm, cd, cs = cur[1][1:5]
+        try:
+            cn = tab.num(cy, cm, cd)
+        except (KeyError, AssertionError):
+            break                       # outside the table: already reported by the step before
+        k = rng.choice(STRIDES + [rng.randint(0, 400), rng.randint(0, 40000)])
+        if rng.random() < 0.15:
+            # land on a year boundary
+            ty = rng.randint(1900, 9999)
+            k = abs(tab.num(ty, 1, 1) - rng.randint(0, 1) - cn)
+        if op in ("add", "diff", "back"):
+            if cn + k > LAST:
+                k = rng.randint(0, LAST - cn)
+        elif op == "sub":
+            if cn - k < FIRST:
+                k = rng.randint(0, cn - FIRST)
+        if op in ("add", "sub", "diff", "back"):
+            e = ev(event(op, k=k))
+        elif op in ("int", "dec", "roundtrip", "roundtrip_int"):
+            e = ev(event(op))
+        elif op in ("date_int", "date_dec", "api_date"):
+            k = rng.randint(FIRST, LAST) if rng.random() < 0.5 else \
+                tab.num(rng.randint(1900, 9999), 1, 1) - rng.randint(0, 1)
+            k = max(FIRST, k)
+            if rng.random() < 0.2:
+                k = cn                  # the day cur stands on, at another time of day
+            if op == "date_int":
+                e = ev(event(op, k=k))
+            else:
+                e = ev(event(op, k=k, a=rng.randrange(86400)))
+        elif op == "api_num":
+            oy, om, od = tab.date(rng.randint(FIRST, LAST)) if rng.random() < 0.7 else (cy, cm, cd)
+            e = ev(event(op, y=oy, m=om, d=od, s=rng.randrange(86400)))
+        elif op == "minus":
+            oy, om, od = tab.date(rng.randint(FIRST, LAST))
+            e = ev(event(op, y=oy, m=om, d=od, s=cs))
+        elif op == "tz":
+            e = ev(event(op, k=rng.randint(1, len(_ZONES))))
         else:
-            n = rng.randint(FIRST, LAST)
-        n = max(FIRST, min(LAST, n))
-        s = rng.choice([0, 0, 43200, 86399, 1]) if rng.random() < 0.4 else rng.randrange(86400)
-        y, m, d = tab.date(n)
-        e = ev(it, "def cur = " + lit((y, m, d), s), op="new", y=y, m=m, d=d, s=s)
-        if not e["ok"]:
-            continue
-        for _step in range(rng.randint(5, 12)):
-            op = rng.choice(["add", "sub", "add", "sub", "int", "dec", "date_int", "date_dec",
-                             "roundtrip", "roundtrip_int", "diff", "minus", "back"])
-            cur = interp(it, "cur")
-            if cur[0] != "val" or cur[1][0] != "date":
-                break
-            cy, cm, cd, cs = cur[1][1:5]
-            try:
-                cn = tab.num(cy, cm, cd)
-            except (KeyError, AssertionError):
-                break                       # outside the table: already reported by the step before
-            k = rng.choice(STRIDES + [rng.randint(0, 400), rng.randint(0, 40000)])
-            if rng.random() < 0.15:
-                # land on a year boundary
-                ty = rng.randint(1900, 9999)
-                k = abs(tab.num(ty, 1, 1) - rng.randint(0, 1) - cn)
-            if op in ("add", "diff", "back"):
-                if cn + k > LAST:
-                    k = rng.randint(0, LAST - cn)
-            elif op == "sub":
-                if cn - k < FIRST:
-                    k = rng.randint(0, cn - FIRST)
-            if op == "add":
-                e = ev(it, "cur = cur + %d" % k, op=op, k=k)
-            elif op == "sub":
-                e = ev(it, "cur = cur - %d" % k, op=op, k=k)
-            elif op == "int":
-                e = ev(it, "int(cur)", op=op)
-            elif op == "dec":
-                e = ev(it, "decimal(cur)", op=op)
-            elif op in ("date_int", "date_dec"):
-                k = rng.randint(FIRST, LAST) if rng.random() < 0.5 else \
-                    tab.num(rng.randint(1900, 9999), 1, 1) - rng.randint(0, 1)
-                k = max(FIRST, k)
-                if op == "date_int":
-                    e = ev(it, "cur = date(%d)" % k, op=op, k=k)
-                else:
-                    a = rng.randrange(86400)
-                    e = ev(it, "cur = date(%s)" % repr(k + a / 86400), op=op, k=k, a=a)
-            elif op == "roundtrip":
-                e = ev(it, "date(decimal(cur))", op=op)
-            elif op == "roundtrip_int":
-                e = ev(it, "date(int(cur))", op=op)
-            elif op == "diff":
-                e = ev(it, "(cur + %d) - cur" % k, op=op, k=k)
-            elif op == "minus":
-                oy, om, od = tab.date(rng.randint(FIRST, LAST))
-                e = ev(it, "%s - cur" % lit((oy, om, od), cs), op=op, y=oy, m=om, d=od, s=cs)
-            else:  # back
-                e = ev(it, "(cur + %d) - %d == cur" % (k, k), op=op, k=k)
-            if not e["ok"]:
-                break                       # the model and `cur` may differ now: next trace
+            e = ev(noise_event(rng, tab, (cn, cs)))
+        if not e["ok"] and e["op"] not in ("valid", "fmt", "part", "str", "cmp", "err", "free"):
+            break                       # the model and `cur` may differ now: next trace
+        if not e["ok"] and e["op"] == "parse":
+            break
     return events, meta
+
+
+def run_history(it, zone, ops):
+    """One history exported by DateProc in this (new) process -> (events, meta)"""
+    events, meta = [], []
+    for e0 in [event("start", k=zone, a=1)] + list(ops):
+        e = event(e0["op"], **{f: e0[f] for f in INPUTS.get(e0["op"], ())})
+        src = source(e)
+        o = observe(it, e, src)
+        events.append(e)
+        meta.append([src, note_of(e, o)])
+        if not e["ok"] and e["op"] in CONSTRUCTORS + ("add", "sub"):
+            break                       # cur is not what the next operation expects
+    return events, meta
+
+
+def battery_jobs(tab):
+    """the binding-A days every new process is probed on after its history"""
+    jobs = []
+    for (y, m, d) in BATTERY_DAYS + [BATTERY_FAR]:
+        n = tab.num(y, m, d)
+        k = 1 if d > 15 else -1
+        offs = [(k, tab.date(n + k))] if FIRST <= n + k <= LAST else [(-k, tab.date(n - k))]
+        jobs.append((y, m, d, n, 45015, offs, "light"))
+    return jobs
+
+
+def run_task(task, it, tab, battery):
+    """A history or a walk, then the battery, in this process -> result record"""
+    zone = task["zone"]
+    set_zone(zone)                      # a zygote is started with this TZ already; replay in another process sets it
+    t0 = time.process_time()
+    if task["kind"] == "walk":
+        events, meta = record_walk(random.Random(task["seed"]), tab, it, zone)
+    else:
+        events, meta = run_history(it, zone, task["ops"])
+    label = "process[%s]" % "; ".join(m[0] for m in meta)
+    rnd = random.Random(task["id"] * 7919 + 13)
+    days = [b for b in battery if tuple(b[:3]) != BATTERY_FAR or task["id"] % 4 == 0]
+    rnd.shuffle(days)
+    viol = []
+    cnt = 0
+    _ENV["pre"] = None
+    t1 = time.process_time()
+    for (y, m, d, n, s, offs, mode) in days:
+        o, c = check_day(it, y, m, d, n, s, [(k, tuple(t)) for k, t in offs], mode, order=rnd.randrange(2 ** 30))
+        cnt += c
+        for key, what, _case in o:
+            viol.append([label + " then " + key, what + " - after that history in a new process",
+                         {"kind": "proc", "task": task}])
+    return {"id": task["id"], "events": events, "meta": meta, "viol": viol, "cnt": cnt,
+            "cpu": [t1 - t0, time.process_time() - t1]}
+
+
+def fork_retry():
+    for i in range(200):
+        try:
+            return os.fork()
+        except OSError:                 # "Resource temporarily unavailable" on the loaded machine
+            time.sleep(0.05 * (i + 1))
+    return os.fork()
+
+
+def zygote_main(jobfile, outfile):
+    """Runs in a newly started interpreter (TZ in its environment, ckl imported, nothing evaluated): forks
+    one child per task, so that each task meets the state of a process that has done nothing yet."""
+    global _PROGRESS, _ZONES
+    with open(jobfile) as f:
+        job = json.load(f)
+    _ZONES = job["zones"]
+    _ENV["tz"], _ENV["zone"] = os.environ.get("TZ"), job["zone"]
+    with open(job["months"]) as f:
+        tab = Table.from_rows(json.load(f))
+    battery = job["battery"]
+    it = Interpreter(True, False)
+    with open(outfile, "w") as outf:
+        for task in job["tasks"]:
+            res = None
+            for _attempt in range(2):
+                res = one_child(task, it, tab, battery)
+                if "died" not in res or res["died"] == "SIGXCPU":
+                    break
+            outf.write(json.dumps(res) + "\n")
+            outf.flush()
+
+
+def one_child(task, it, tab, battery):
+    global _PROGRESS
+    r, w = os.pipe()
+    pid = fork_retry()
+    if pid == 0:
+        code = 1
+        try:
+            os.close(r)
+            resource.setrlimit(resource.RLIMIT_CPU, (CHILD_CPU, CHILD_CPU + 10))
+
+            def tell(text):
+                os.write(w, (json.dumps({"at": text}) + "\n").encode())
+            _PROGRESS = tell
+            res = run_task(task, it, tab, battery)
+            data = (json.dumps(res) + "\n").encode()
+            while data:
+                data = data[os.write(w, data):]
+            code = 0
+        except BaseException:  # noqa: BLE001 - shown to the parent through the error file of the zygote
+            import traceback
+            traceback.print_exc()
+        finally:
+            sys.stderr.flush()
+            os._exit(code)
+    os.close(w)
+    buf = b""
+    deadline = time.time() + WALL_LIMITS[-1] * 2
+    timed_out = False
+    while True:
+        left = deadline - time.time()
+        if left <= 0 or not select.select([r], [], [], left)[0]:
+            timed_out = True
+            os.kill(pid, signal.SIGKILL)
+            break
+        chunk = os.read(r, 1 << 16)
+        if not chunk:
+            break
+        buf += chunk
+    os.close(r)
+    _pid, status = os.waitpid(pid, 0)
+    lines = [json.loads(x) for x in buf.decode().splitlines() if x.strip()]
+    if lines and "id" in lines[-1] and not timed_out:
+        return lines[-1]
+    sig = os.WTERMSIG(status) if os.WIFSIGNALED(status) else 0
+    died = "wall" if timed_out else ("SIGXCPU" if sig == signal.SIGXCPU else "signal %d" % sig if sig
+                                     else "exit %d" % os.WEXITSTATUS(status))
+    ats = [x["at"] for x in lines if "at" in x]
+    return {"id": task["id"], "died": died, "at": ats[-1] if ats else "", "done": ats[:-1]}
+
+
+BOOT = ("import sys; sys.path.insert(0, %r); from harness import c17; "
+        "c17.zygote_main(sys.argv[1], sys.argv[2])" % VERIF_ROOT)
+
+
+class Processes:
+    """The new processes of one run: started early, collected after the worker pool."""
+
+    def __init__(self, tasks, tab, workdir, shards_per_zone=2):
+        self.tasks = {t["id"]: t for t in tasks}
+        self.procs = []
+        self.stderr = ""
+        self.failure = None
+        months = os.path.join(workdir, "months.json")
+        with open(months, "w") as f:
+            json.dump(tab.rows, f)
+        battery = battery_jobs(tab)
+        by_zone = {}
+        for t in tasks:
+            by_zone.setdefault(t["zone"], []).append(t)
+        for z, ts in sorted(by_zone.items()):
+            nsh = max(1, min(shards_per_zone, len(ts)))
+            for i in range(nsh):
+                part = ts[i::nsh]
+                jf = os.path.join(workdir, "zyg-%d-%d.json" % (z, i))
+                of = os.path.join(workdir, "zyg-%d-%d.out" % (z, i))
+                with open(jf, "w") as f:
+                    json.dump({"zone": z, "zones": _ZONES, "months": months, "battery": battery, "tasks": part}, f)
+                env = dict(os.environ)
+                env["TZ"] = _ZONES[z - 1]
+                env["PYTHONHASHSEED"] = "0"
+                errf = open(os.path.join(workdir, "zyg-%d-%d.err" % (z, i)), "w+")
+                p = subprocess.Popen([sys.executable, "-c", BOOT, jf, of], env=env, cwd=VERIF_ROOT,
+                                     stdout=errf, stderr=errf)
+                self.procs.append((p, of, errf, part))
+
+    def collect(self, limit):
+        """-> {task id: result}"""
+        results = {}
+        deadline = time.time() + limit
+        failure = None
+        for p, of, errf, part in self.procs:
+            try:
+                rc = p.wait(timeout=max(1, deadline - time.time()))
+            except subprocess.TimeoutExpired:
+                p.kill()
+                p.wait()
+                rc = None
+            if os.path.exists(of):
+                with open(of) as f:
+                    for ln in f:
+                        if ln.strip():
+                            r = json.loads(ln)
+                            results[r["id"]] = r
+            errf.seek(0)
+            tail = errf.read()[-600:]
+            errf.close()
+            if rc != 0 and failure is None:
+                failure = "a history process %s: %s" % (
+                    "did not finish in time" if rc is None else "ended with status %r" % rc, tail)
+            if tail and not self.stderr:
+                self.stderr = tail
+        self.failure = failure
+        return results
+
+
+def run_processes(run, procs, limit):
+    """Collect the new processes -> (events, meta, owners, evaluations).  Violations of the battery and
+    processes the code under test never came back from go to run."""
+    results = procs.collect(limit)
+    events, meta, owners = [], [], []
+    evals = 0
+    cpu = [0.0, 0.0]
+    for tid in sorted(procs.tasks):
+        task = procs.tasks[tid]
+        r = results.get(tid)
+        if r is None:
+            continue
+        if "died" in r:
+            label = "process[%s]" % "; ".join(r.get("done", []))
+            if r["died"] == "SIGXCPU":
+                run.violation(label + " then " + r["at"],
+                              "no-result: the process used %d CPU-seconds and was stopped while evaluating this%s"
+                              % (CHILD_CPU, " [TZ=%s]" % _ZONES[task["zone"] - 1]), {"kind": "proc", "task": task})
+            else:
+                procs.failure = procs.failure or "a history process died (%s) at %s: %s" % (
+                    r["died"], r["at"], procs.stderr)
+            continue
+        owners.append((len(events), task))
+        events += r["events"]
+        meta += r["meta"]
+        evals += r["cnt"]
+        cpu = [cpu[0] + r["cpu"][0], cpu[1] + r["cpu"][1]]
+        for key, what, case in r["viol"]:
+            run.violation(key, what, case)
+    run.cov["impl_cpu_seconds_in_new_processes"] = {"histories_and_walks": round(cpu[0], 1), "battery": round(cpu[1], 1)}
+    missing = [t for t in procs.tasks if t not in results]
+    if procs.failure or missing:
+        if events:
+            validate_traces(run, events, meta, owners)      # what was observed is reported before giving up
+        raise MachineryError(procs.failure or "%d history processes returned nothing" % len(missing))
+    return events, meta, owners, evals
 
 
 def rerecord(events, meta):
     """Run the stored sources of one trace again on the code under test and
-    observe afresh (used by --replay)."""
+    observe afresh (used by --replay of the cases of earlier rounds)."""
     it = Interpreter(True, False)
     out_e, out_m = [], []
-    keep = {"new": ("y", "m", "d", "s"), "minus": ("y", "m", "d", "s"), "date_dec": ("k", "a")}
     for e0, (src, _note) in zip(events, meta):
-        e = dict(BLANK)
-        e["op"] = e0["op"]
-        for f in keep.get(e0["op"], ("k",)):
-            e[f] = e0[f]
+        e = event(e0["op"], **{f: e0[f] for f in INPUTS.get(e0["op"], ()) if f in e0})
         o = observe(it, e, src)
         out_e.append(e)
-        out_m.append([src, "" if e["ok"] else "%r" % (o,)])
+        out_m.append([src, note_of(e, o)])
     return out_e, out_m
 
 
-def validate_traces(run, events, meta):
+def validate_traces(run, events, meta, owners=()):
     d = tempfile.mkdtemp(prefix="c17-")
     path = os.path.join(d, "trace.ndjson")
     try:
@@ -530,29 +1146,65 @@ def validate_traces(run, events, meta):
     done = res.records("DONE")
     if not done or done[-1]["n"] != len(events):
         raise MachineryError("trace validation did not consume the whole trace")
+    starts = [i for i, _t in owners]
+    nbad = 0
+    seen = set()
     for b in res.records("BAD"):
         k = b["l"] - 1
+        if (k, b["why"]) in seen:
+            continue
+        seen.add((k, b["why"]))
         j = k
-        while events[j]["op"] != "new":
+        while j > 0 and events[j]["op"] != "start" and not (not owners and events[j]["op"] == "new"):
             j -= 1
-        run.violation("trace:%s ; %s -> %s" % (meta[j][0], meta[k][0], json.dumps(events[k], sort_keys=True)),
+        if b["why"].startswith("noise-"):
+            # what a bystander itself returned: not what the property speaks about
+            run.drift("bystander-result-" + b["why"][6:], "%s -> %s %s" % (
+                meta[k][0], json.dumps(events[k], sort_keys=True), meta[k][1]))
+            continue
+        nbad += 1
+        if owners:
+            case = {"kind": "proc", "task": owners[bisect.bisect_right(starts, k) - 1][1]}
+        else:
+            case = {"kind": "trace", "events": events[j:k + 1], "meta": meta[j:k + 1]}
+        run.violation("trace:%s -> %s" % (" ; ".join(mm[0] for mm in meta[j:k + 1]), json.dumps(events[k], sort_keys=True)),
                       "trace-rejected: recorded call rejected by Date_Trace at clause %s %s" % (b["why"], meta[k][1]),
-                      {"kind": "trace", "events": events[j:k + 1], "meta": meta[j:k + 1]})
-    return len(events), len(res.records("BAD"))
+                      case)
+    return len(events), nbad
 
 
 # ------------------------------------------------------------------ run
 def tlc_tables(run, quick):
-    """Run the calendar machines; return (Table of all months, months walked day
-    by day, ARITH cases)."""
-    res = tlc("Date", "Date_quick", coverage=True, timeout=1200)
-    run.add_tlc(res, "Date day walk over the quick year ranges (Tick = one calendar day)")
+    """Run the calendar machines and the process machine (each its own JVM, side by side); return
+    (Table of all months, months walked day by day, ARITH cases, histories, hazard instants)."""
+    global _ZONES
+    specs = [
+        ("walk", ("Date", "Date_quick"), dict(coverage=True, timeout=1200),
+         "Date day walk over the quick year ranges (Tick = one calendar day)"),
+        ("months", ("Date", "Date_months"), dict(coverage=False, timeout=1800),
+         "Date month walk 1900-01..9999-12 (WholeMonth: every day of every month)"),
+        ("years", ("Date", "Date_years"), dict(coverage=True, timeout=1200, workers=4),
+         "Date year walk 1900..9999 (year-length sum of to_oa_date)"),
+        ("arith", ("DateArith", "DateArith_quick" if quick else "DateArith_thorough"), dict(coverage=True, timeout=3000),
+         "DateArith calendar-stepping machine (d + k is k NextDay steps away)"),
+        ("first", ("DateProc", "DateProc_first"), dict(coverage=True, timeout=1200, workers=4),
+         "DateProc: every operation of the date vocabulary as the first one of a process (wide parameters)"),
+        ("pairs", ("DateProc", "DateProc_pairs"), dict(coverage=True, timeout=1200, workers=4),
+         "DateProc: every ordered pair of operations in a new process (narrow parameters)"),
+    ]
+    if not quick:
+        specs.append(("thorough", ("Date", "Date_thorough"), dict(coverage=False, timeout=7200),
+                      "Date day walk over every day 1900-01-01..9999-12-31 (810 decade walks)"))
+        specs.append(("triples", ("DateProc", "DateProc_triples"), dict(coverage=False, timeout=3600),
+                      "DateProc: every ordered triple of operations in a new process (narrow parameters)"))
+    with ThreadPoolExecutor(max_workers=len(specs)) as ex:
+        futs = {name: ex.submit(tlc, *a, **kw) for name, a, kw, _label in specs}
+        got = {name: f.result() for name, f in futs.items()}
+    for name, _a, _kw, label in specs:
+        run.add_tlc(got[name], label)
+    res, resm, resy, resa = got["walk"], got["months"], got["years"], got["arith"]
     walked = {(r["y"], r["m"]): (r["n"], r["len"]) for r in res.records("MONTH")}
-    resm = tlc("Date", "Date_months", coverage=False, timeout=1800)
-    run.add_tlc(resm, "Date month walk 1900-01..9999-12 (WholeMonth: every day of every month)")
     tab = Table(resm.records("MONTH"))
-    resy = tlc("Date", "Date_years", coverage=True, timeout=1200)
-    run.add_tlc(resy, "Date year walk 1900..9999 (year-length sum of to_oa_date)")
     years = {r["y"]: (r["n"], r["len"]) for r in resy.records("YEAR")}
     # the three walks must tell one story (a disagreement is a spec bug, not a finding)
     if len(tab.first) != 8100 * 12 or not tab.contiguous() or tab.rows[0][0] != FIRST \
@@ -566,31 +1218,79 @@ def tlc_tables(run, quick):
     for yy, (n, ln) in years.items():
         if tab.first[(yy, 1)][0] != n or tab.num(yy, 12, 31) != n + ln - 1:
             raise MachineryError("year walk and month walk disagree on %d" % yy)
-    if not quick:
-        rest = tlc("Date", "Date_thorough", coverage=False, timeout=7200)
-        run.add_tlc(rest, "Date day walk over every day 1900-01-01..9999-12-31 (810 decade walks)")
-        if rest.distinct != LAST - FIRST + 1:
-            raise MachineryError("full day walk visited %d days" % rest.distinct)
-    resa = tlc("DateArith", "DateArith_quick" if quick else "DateArith_thorough",
-                   coverage=True, timeout=3000)
-    run.add_tlc(resa, "DateArith calendar-stepping machine (d + k is k NextDay steps away)")
+    if not quick and got["thorough"].distinct != LAST - FIRST + 1:
+        raise MachineryError("full day walk visited %d days" % got["thorough"].distinct)
     arith = {}
     for r in resa.records("ARITH"):
         arith[(tuple(r["b"]), r["k"])] = r
-    return tab, walked, list(arith.values())
+    # the process machine: histories and the environment model
+    env = got["first"].records("ENV")
+    if not env or len(env[0]["zones"]) < 2 or not env[0]["hazards"]:
+        raise MachineryError("DateProc exported no environment (zones, hazard instants)")
+    _ZONES = list(env[0]["zones"])
+    hazards = sorted({tuple(h) for h in env[0]["hazards"]})
+    for z, y, m, d, sec in hazards:
+        if not (1 <= z <= len(_ZONES) and (y, m) in tab.first and 1 <= d <= tab.first[(y, m)][1] and 0 <= sec < 86400):
+            raise MachineryError("hazard instant outside the calendar: %r" % ((z, y, m, d, sec),))
+    hists = {}
+    for name in ("first", "pairs") + (() if quick else ("triples",)):
+        for h in got[name].records("HIST"):
+            key = json.dumps(h["ops"], sort_keys=True)
+            hists.setdefault(key, {"zone": h["z"], "ops": h["ops"], "n": h["n"], "from": name})
+    if len(hists) < 100:
+        raise MachineryError("DateProc exported only %d histories" % len(hists))
+    return tab, walked, list(arith.values()), [hists[k] for k in sorted(hists)], hazards
 
 
 def run(run):
     global _TAB
     quick = run.tier == "quick"
     rng = random.Random(run.seed)
-    tab, walked, arith = tlc_tables(run, quick)
+    t0 = time.time()
+    tab, walked, arith, hists, hazards = tlc_tables(run, quick)
+    run.cov["phase_seconds"] = {"tlc_side_by_side": round(time.time() - t0, 1)}
     _TAB = tab
     if not arith:
         raise MachineryError("TLC exported no arithmetic cases")
+    nz = len(_ZONES)
 
+    # ---- new processes: the DateProc histories and the recorded walks, started now, collected later
+    tasks = []
+    for h in hists:
+        tasks.append({"id": len(tasks), "kind": "hist", "zone": h["zone"], "ops": h["ops"]})
+    nhist = len(tasks)
+    nt = 800 if quick else 8000
+    for i in range(nt):
+        tasks.append({"id": len(tasks), "kind": "walk", "zone": 1 + (i + rng.randrange(nz)) % nz,
+                      "seed": rng.randrange(2 ** 30)})
+    workdir = tempfile.mkdtemp(prefix="c17-proc-")
+    try:
+        procs = Processes(tasks, tab, workdir)
+        try:
+            run_main(run, rng, quick, tab, walked, arith, hazards, procs, nhist, nt)
+        finally:
+            for p, _of, errf, _part in procs.procs:
+                if p.poll() is None:
+                    p.kill()
+                    p.wait()
+                if not errf.closed:
+                    errf.close()
+    finally:
+        for name in os.listdir(workdir):
+            os.remove(os.path.join(workdir, name))
+        os.rmdir(workdir)
+
+
+def run_main(run, rng, quick, tab, walked, arith, hazards, procs, nhist, nt):
+    nz = len(_ZONES)
     jobs = []
     seen = set()
+    zones_used = {}
+
+    def env():
+        z = 1 + rng.randrange(nz)
+        zones_used[z] = zones_used.get(z, 0) + 1
+        return (z, rng.randrange(1, 2 ** 30) if rng.random() < NOISE_SHARE else 0)
 
     def add_day(y, m, d, mode, noffs, s=None):
         if (y, m, d) in seen:
@@ -605,7 +1305,7 @@ def run(run):
             offs = [(k, tab.date(n + k))] if FIRST <= n + k <= LAST else []
         else:
             offs = offsets_for(tab, rng, n, noffs, ends=(noffs > 1 or rng.random() < 0.25)) if noffs else []
-        jobs.append((y, m, d, n, s, offs, mode))
+        jobs.append((y, m, d, n, s, offs, env(), mode))
 
     # first / last three days of every month walked day by day
     for (y, m), (n, ln) in sorted(walked.items()):
@@ -616,7 +1316,7 @@ def run(run):
     for (y, m, d), s in zip([(1900, 1, 1), (1969, 12, 31), (1970, 1, 1), (2020, 5, 5), (9999, 12, 31)] * 2,
                             [45015] * 5 + [86399] * 5):
         n = tab.num(y, m, d)
-        jobs.append((y, m, d, n, s, offsets_for(tab, rng, n, 2), "full"))
+        jobs.append((y, m, d, n, s, offsets_for(tab, rng, n, 2), env(), "full"))
     # every year boundary 1900..9999 and the end of every February
     for y in range(1900, 10000):
         add_day(y, 1, 1, "bound", 0)
@@ -629,11 +1329,18 @@ def run(run):
     for _ in range(nrand):
         y, m, d = tab.date(rng.randint(FIRST, LAST))
         add_day(y, m, d, rng.choice(RANDOM_DAY_MODES), 1)
+    # the local hours a zone skips or repeats (DateOps.HazardsOf), under that zone, every form
+    for z, y, m, d, sec in hazards:
+        n = tab.num(y, m, d)
+        k = rng.choice([1, -1])
+        k = k if FIRST <= n + k <= LAST else -k
+        seen.add((y, m, d))
+        jobs.append((y, m, d, n, sec, [(k, tab.date(n + k))], (z, 0), "full"))
     ndays = len(jobs)
     if not quick:
         # every day of every month: direct conversions (to_oa_date / to_date)
         for (n0, y, m, ln) in tab.rows:
-            jobs.append(("month", y, m, n0, ln, rng.randrange(2 ** 30)))
+            jobs.append(("month", y, m, n0, ln, rng.randrange(2 ** 30), env(), "month"))
             ndays += ln
     # arithmetic cases of the stepping machine
     arith.sort(key=lambda r: (r["b"], r["k"]))
@@ -645,40 +1352,55 @@ def run(run):
     acases = 0
     for b, offs in sorted(by_day.items()):
         for i in range(0, len(offs), 4):
-            jobs.append(b + (tab.num(*b), rng.randrange(86400), offs[i:i + 4], "arith"))
+            jobs.append(b + (tab.num(*b), rng.randrange(86400), offs[i:i + 4], env(), "arith"))
             acases += len(offs[i:i + 4])
-    # binding B: recorded walks
-    nt = 800 if quick else 8000
-    per = 20
-    for i in range(nt // per):
-        jobs.append(("traces", rng.randrange(2 ** 30), per))
     sample_day = next(j for j in jobs if j[-1] == "full")
     modes = {}
+    nnoise = 0
     for j in jobs:
-        if not isinstance(j[0], str):
-            modes[j[-1]] = modes.get(j[-1], 0) + 1
+        modes[j[-1]] = modes.get(j[-1], 0) + 1
+        nnoise += 1 if j[-2][1] else 0
     rng.shuffle(jobs)               # far-future days are ~10x slower: spread them over the pool
-    evals, events, meta = run_jobs(run, jobs, 16)
+    t0 = time.time()
+    evals = run_jobs(run, jobs, 16, 1800 if quick else 4 * 3600)
+    run.cov["phase_seconds"]["worker_pool"] = round(time.time() - t0, 1)
+    t0 = time.time()
     run.sample({"DAY": {"date": list(sample_day[:3]), "n": sample_day[3], "second_of_day": sample_day[4],
-                        "offsets": sample_day[5]}})
+                        "offsets": sample_day[5], "zone": _ZONES[sample_day[6][0] - 1]}})
     run.sample({"ARITH": arith[len(arith) // 2]})
-    nev, nbad = validate_traces(run, events, meta)
-    run.sample({"TRACE": events[:5]})
-    ntr = sum(1 for e in events if e["op"] == "new")
+    # binding B and the histories: one new process each
+    events, meta, owners, pevals = run_processes(run, procs, 1800 if quick else 4 * 3600)
+    run.cov["phase_seconds"]["waiting_for_new_processes"] = round(time.time() - t0, 1)
+    t0 = time.time()
+    nev, nbad = validate_traces(run, events, meta, owners)
+    run.cov["phase_seconds"]["trace_validation"] = round(time.time() - t0, 1)
+    run.sample({"HISTORY": {"zone": _ZONES[procs.tasks[0]["zone"] - 1], "ops": procs.tasks[0]["ops"]}})
+    run.sample({"TRACE": events[owners[nhist][0]:owners[nhist][0] + 6] if len(owners) > nhist else events[:6]})
+    ntr = len(owners)
+    ops_seen = {}
+    for e in events:
+        ops_seen[e["op"]] = ops_seen.get(e["op"], 0) + 1
 
     ndistinct = (len(seen) if quick else LAST - FIRST + 1)
     run.cov["traces_validated_against_impl"] = ndays + acases + ntr
-    run.cov["evaluations"] = evals + nev
+    run.cov["evaluations"] = evals + pevals + nev
     run.cov["distinct_nontrivial"] = ndistinct + acases + ntr
     run.cov["rule"] = ("binding A: one case per distinct calendar day (conversions, and offsets predicted by the "
                        "TLC month table) plus one per distinct (base, k) pair of DateArith; binding B: one per "
-                       "recorded walk; evaluations counts calls of the real code (direct calls and interpreter "
+                       "new process (a DateProc history or a recorded walk, each followed by the battery); "
+                       "evaluations counts calls of the real code (direct calls and interpreter "
                        "expressions) and trace events")
     run.cov["exhaustive"] = not quick
     run.cov["bounds"] = {"days_of_walked_months": nwalk, "year_and_february_boundaries": nbound,
                          "random_days_requested": nrand, "distinct_days": ndistinct,
-                         "day_jobs_by_mode": modes, "arith_cases": acases, "recorded_walks": ntr,
-                         "trace_events": nev, "trace_events_rejected": nbad,
+                         "day_jobs_by_mode": modes, "arith_cases": acases,
+                         "hazard_instants": len(hazards), "zones": list(_ZONES),
+                         "jobs_by_zone": {_ZONES[z - 1]: c for z, c in sorted(zones_used.items())},
+                         "jobs_after_a_bystander_call": nnoise,
+                         "new_processes": ntr, "process_histories_from_DateProc": nhist, "recorded_walks": nt,
+                         "battery_days_per_process": [len(BATTERY_DAYS), len(BATTERY_DAYS) + 1], "battery_evaluations": pevals,
+                         "trace_events": nev, "trace_events_by_op": dict(sorted(ops_seen.items())),
+                         "trace_events_rejected": nbad,
                          "day_numbers": [FIRST, LAST], "processes": NPROC}
     run.assumptions += [
         "'the same date to the second' is compared as equality of (year, month, day, hour, minute, second); "
@@ -689,21 +1411,59 @@ def run(run):
         "the quick tier relies on the WholeMonth invariant (month walk) for the days inside the months "
         "that are not walked day by day; the thorough tier walks every day in TLC and calls "
         "to_oa_date / to_date on every day",
+        "the zone of a process is set through the TZ environment variable (POSIX strings, no tz database) at "
+        "process start and with tzset while it runs; other ways a platform tells the zone are not varied",
+        "what a bystander (parse_date, is_valid_date, format_date, date_year .., comparisons, failing conversions) "
+        "itself returns is compared with the model but counted as drift; only the conversions and the day "
+        "arithmetic that follow are judged",
+        "a call of the code under test that uses %d CPU-seconds is reported as no-result (a conversion takes "
+        "about a millisecond); a wall-clock limit is applied twice before it counts" % CPU_LIMIT,
     ]
 
 
 # ------------------------------------------------------------------ replay
 def replay(run, case):
     kind = case["kind"]
-    if kind == "direct":
-        y, m, d = case["ymd"]
-        out, _ = check_day(None, y, m, d, case["n"], case["s"], [], "direct")
-        for key, what, c in out:
-            run.violation(key, what, c)
-    elif kind == "expr":
-        out, _ = check_parts(Interpreter(True, False), [(case["src"], case["cmp"], case["want"])])
-        for key, what, c in out:
-            run.violation(key, what, c)
-    elif kind == "trace":
-        events, meta = rerecord(case["events"], case["meta"])
-        validate_traces(run, events, meta)
+    tz0 = os.environ.get("TZ")
+    try:
+        if kind == "direct":
+            set_tz(case.get("tz"))
+            y, m, d = case["ymd"]
+            out, _ = check_day(None, y, m, d, case["n"], case["s"], [], "direct")
+            for key, what, c in out:
+                run.violation(key, what, c)
+        elif kind == "expr":
+            set_tz(case.get("tz"))
+            it = Interpreter(True, False)
+            if case.get("pre"):
+                interp(it, case["pre"])
+            out, _ = check_parts(it, [(case["src"], case["cmp"], case["want"])])
+            for key, what, c in out:
+                run.violation(key, what, c)
+        elif kind == "trace":
+            events, meta = rerecord(case["events"], case["meta"])
+            validate_traces(run, events, meta)
+    finally:
+        if tz0 is None:
+            os.environ.pop("TZ", None)
+        else:
+            os.environ["TZ"] = tz0
+        time.tzset()
+        _ENV["zone"], _ENV["tz"] = 0, None
+    if kind == "proc":
+        # the whole history again, in a process of its own
+        global _ZONES
+        resm = tlc("Date", "Date_months", coverage=False, timeout=1800)
+        tab = Table(resm.records("MONTH"))
+        env = tlc("DateProc", "DateProc_pairs", coverage=False, timeout=1200, workers=4).records("ENV")
+        _ZONES = list(env[0]["zones"])
+        task = dict(case["task"], id=case["task"]["id"])
+        workdir = tempfile.mkdtemp(prefix="c17-proc-")
+        try:
+            procs = Processes([task], tab, workdir)
+            events, meta, owners, _ev = run_processes(run, procs, 3600)
+            validate_traces(run, events, meta, owners)
+        finally:
+            for name in os.listdir(workdir):
+                os.remove(os.path.join(workdir, name))
+            os.rmdir(workdir)
